@@ -57,6 +57,21 @@ def _written_slot(node):
     return None
 
 
+def _setdefault_value(node):
+    """True when `X.setdefault(k, v)` stores a real value (not an empty container that is only the
+    next level of a tree being descended / filled afterwards)."""
+    call = node.value if isinstance(node, ast.Expr) else node
+    for c in ast.walk(call) if not isinstance(call, ast.Call) else [call]:
+        if isinstance(c, ast.Call) and isinstance(c.func, ast.Attribute) and c.func.attr == "setdefault":
+            if len(c.args) < 2:
+                return False
+            v = c.args[1]
+            empty = (isinstance(v, (ast.Dict, ast.List, ast.Set)) and not getattr(v, "keys", getattr(v, "elts", []))) or \
+                (isinstance(v, ast.Call) and not v.args and not v.keywords)
+            return not empty
+    return False
+
+
 def _fresh_before(func, node, name):
     """`name = <fresh object>` assigned earlier in the same function body
     (statement order) than node."""
@@ -113,7 +128,10 @@ def rule_r1(repo, run, P):
                 prims = []
             for kind, pnode, pfid, pname in prims:
                 pfunc = P.funcs[pfid]
-                if kind in ("setitem",) or kind == "call:setdefault":
+                if kind == "call:setdefault" and _setdefault_value(pnode):
+                    bad.append("setdefault at %s keeps the value stored by an earlier run (first writer wins)"
+                               % P.mods[P.module_of(pfid)].loc(pnode))
+                elif kind in ("setitem",) or kind == "call:setdefault":
                     if _membership_guard(pnode, pfunc, {pname, b.name, "self." + b.name}):
                         bad.append("%s at %s is guarded by a membership test on the container: a value "
                                    "from an earlier run is kept" % (kind, P.mods[P.module_of(pfid)].loc(pnode)))
@@ -299,8 +317,8 @@ def rule_r3(repo, run):
                   "the current directory is put on the file search path unconditionally (guards: %s): with the same "
                   "absolute arguments the files that are read depend on where the process was started" % tests,
                   mm.loc(a), sample=dict(assign=mm.seg(a), guards=tests))
-    if not dots:
-        raise AnalysisError("C07.R3: default search path of main_with_args not found")
+    if not any(isinstance(a, ast.Assign) and pyflow.is_name(a.targets[0], "search_path") for a in ast.walk(f)):
+        raise AnalysisError("C07.R3: search path of main_with_args not found")
 
 
 # ---------------------------------------------------------------------------
